@@ -18,7 +18,13 @@ SPELL = ["1.0.0", "1.0", "1", "v1.0.0", "v1", "1.2.3", "1.2.3-rc.1", "1.2.3-rc.1
 
 def one_history(rng, ip, vs_batches, tag, key, other_noise=True):
     reg, name = key
-    L = [vlib.line("c.reset", "T" if ip else "F", "1000"), vlib.line("c.open", "0")]
+    # the prerelease setting in force may come from the constructor or from a later configuration answer (configure on the
+    # live handle, the refresh interval unchanged or changed): 'latest' must follow the setting in force
+    via_configure = rng.chance(1, 3)
+    L = [vlib.line("c.reset", "T" if (ip != via_configure) else "F", "1000"), vlib.line("c.open", "0")]
+    if via_configure and rng.chance(1, 2):
+        L.append(vlib.line("c.configure", "0", rng.choice(["1000", "1000", "5000"]), "T" if ip else "F"))
+        via_configure = False
     for b in vs_batches:
         if other_noise and rng.chance(1, 3):
             # another package / same name in another registry gets unrelated data
@@ -31,6 +37,8 @@ def one_history(rng, ip, vs_batches, tag, key, other_noise=True):
             L.append(vlib.line("c.open", "0"))  # reopen
     if tag is not None:
         L.append(vlib.line("c.tags", "0", reg, name, "latest", tag, "next", "9.9.9-next.0"))
+    if via_configure:
+        L.append(vlib.line("c.configure", "0", rng.choice(["1000", "1000", "5000"]), "T" if ip else "F"))
     L.append(vlib.line("c.latest_rows", "0", reg, name))
     return L
 
